@@ -223,8 +223,8 @@ def _condition(tp, w, c, name):
     raise ValueError(kind)
 
 
-def build(spec):
-    """spec -> World with .train (conditions), .val, .models, .params; deterministic in spec["seed"]."""
+def build_base(spec):
+    """spaces, domains, models and inverse-problem Parameters of a world (no conditions yet)"""
     import torchphysics as tp
     from torchphysics.problem.spaces import Space
     w = World()
@@ -239,9 +239,27 @@ def build(spec):
     for p in spec.get("params", []):
         sp = Space({p["name"]: len(p["init"])})
         w.params.append(tp.models.Parameter(init=p["init"], space=sp))
-    w.train = [_condition(tp, w, c, "c%d_%s" % (i, c["kind"])) for i, c in enumerate(spec["conds"])]
-    w.val = [_condition(tp, w, c, "v%d_%s" % (i, c["kind"])) for i, c in enumerate(spec.get("vals", []))]
+    w.train, w.val = [], []
     return w
+
+
+def build_conditions(w, cond_specs, prefix):
+    """live condition objects for the given specs, sharing the models / Parameters of the world `w`"""
+    import torchphysics as tp
+    return [_condition(tp, w, c, "%s%d_%s" % (prefix, i, c["kind"])) for i, c in enumerate(cond_specs)]
+
+
+def build(spec):
+    """spec -> World with .train (conditions), .val, .models, .params; deterministic in spec["seed"]."""
+    w = build_base(spec)
+    w.train = build_conditions(w, spec["conds"], "c")
+    w.val = build_conditions(w, spec.get("vals", []), "v")
+    return w
+
+
+def world_learnables(w):
+    """every learnable tensor of the shared objects of a world (models and Parameters), by the harness' own walk"""
+    return reach_learnables(list(w.models) + list(w.params))
 
 
 # ---------------------------------------------------------------------------------------------
